@@ -91,6 +91,11 @@ def run_shape(shape):
 
     def body():
         with bound(T, coo_array=sp.coo_array, csr_array=sp.csr_array, print=noprint, np=NPProxy()):
+            # another rate matrix of the same process (same pattern and sizes, other numbers) is built first
+            from symx.core import rv
+            dk = {k: rv(0.5 + 0.25 * (k[0] + k[1])) for k in keys}
+            T.SQRA(energies=sarr([SR(rv(1.5 * i - 2.0)) for i in range(n)]), volumes=sarr([SR(rv(1.0 + 0.5 * i)) for i in range(n)]),
+                   distances=mk(dk, shape["fmt_h"]), surfaces=mk({k: 2 * v for k, v in dk.items()}, shape["fmt_S"])).get_rate_matrix(SR(rv(0.7)), SR(rv(280.0)))
             Q = one(E, D)
             Qs = one([e + cshift for e in E], D)
             Qa = one(E, ascale * D)
@@ -264,6 +269,12 @@ def numeric_violations(shape, E, V, S, Hm, sv, hv, D, Tt, shift, scale):
     rel = lambda a, b: abs(a - b) <= 1e-9 * max(abs(a), abs(b))   # purely relative: rates span hundreds of orders of magnitude
     with contextlib.redirect_stdout(io.StringIO()), real_code():
         S0, H0, E0, V0 = S.copy(), Hm.copy(), E.copy(), V.copy()
+        dk = {k: 0.5 + 0.25 * (k[0] + k[1]) for k in sv}
+        import scipy.sparse as rsp
+        ks_ = sorted(sv)
+        mkd = lambda vals, fmt: (lambda c: c if fmt == "coo" else c.tocsr())(rsp.coo_array(([vals[k] for k in ks_], ([k[0] for k in ks_], [k[1] for k in ks_])), shape=(n, n)))
+        T.SQRA(np.array([1.5 * i - 2.0 for i in range(n)]), np.array([1.0 + 0.5 * i for i in range(n)]), mkd(dk, shape["fmt_h"]),
+               mkd({k: 2.0 * v for k, v in dk.items()}, shape["fmt_S"])).get_rate_matrix(0.7, 280.0)     # the decoy of the symbolic run
         obj = T.SQRA(E, V, Hm, S)
         Q = obj.get_rate_matrix(D, Tt)
         Q2 = obj.get_rate_matrix(D, Tt)
